@@ -154,10 +154,114 @@ func lenGuarded(fn *ssa.Function, v ssa.Value, at ssa.Instruction) bool {
 			continue
 		}
 		if isLenOf(a.X) || isLenOf(a.Y) {
+			// both sides constant (len(v) OP K guarding v[..M] / v[M-1]): the guard counts only if
+			// the edge towards the use establishes len(v) >= M (round-5 seed C11-F: 32 -> 16)
+			if need, okN := constNeed(at); okN {
+				if lb, okL := constLenLowerBound(a, b, at.Block(), isLenOf); okL && lb < need {
+					continue
+				}
+			}
 			return true
 		}
 	}
 	return false
+}
+
+// constNeed: the least length the use needs when its bounds are constants.
+func constNeed(at ssa.Instruction) (int64, bool) {
+	switch x := at.(type) {
+	case *ssa.Slice:
+		var m int64 = -1
+		for _, v := range []ssa.Value{x.Low, x.High, x.Max} {
+			if v == nil {
+				continue
+			}
+			k, ok := IntConst(v)
+			if !ok {
+				return 0, false
+			}
+			if k > m {
+				m = k
+			}
+		}
+		return m, m >= 0
+	case *ssa.IndexAddr:
+		if k, ok := IntConst(x.Index); ok {
+			return k + 1, true
+		}
+	case *ssa.Index:
+		if k, ok := IntConst(x.Index); ok {
+			return k + 1, true
+		}
+	}
+	return 0, false
+}
+
+// constLenLowerBound: for an atom of the exact form len(v) OP K (or K OP len(v)) in block b,
+// the lower bound of len(v) on the edge that dominates `use`; ok=false when the atom is not of
+// that form or no single successor dominates the use.
+func constLenLowerBound(a Atom, b, use *ssa.BasicBlock, isLenOf func(ssa.Value) bool) (int64, bool) {
+	directLen := func(v ssa.Value) bool {
+		call, ok := v.(*ssa.Call)
+		if !ok {
+			return false
+		}
+		bi, isB := call.Call.Value.(*ssa.Builtin)
+		return isB && bi.Name() == "len" && isLenOf(v)
+	}
+	op := a.Op
+	var k int64
+	switch {
+	case directLen(a.X):
+		kk, ok := IntConst(a.Y)
+		if !ok {
+			return 0, false
+		}
+		k = kk
+	case directLen(a.Y):
+		kk, ok := IntConst(a.X)
+		if !ok {
+			return 0, false
+		}
+		k = kk
+		switch op { // mirror: K OP len  ==  len OP' K
+		case token.LSS:
+			op = token.GTR
+		case token.LEQ:
+			op = token.GEQ
+		case token.GTR:
+			op = token.LSS
+		case token.GEQ:
+			op = token.LEQ
+		}
+	default:
+		return 0, false
+	}
+	if len(b.Succs) != 2 {
+		return 0, false
+	}
+	ts := a.TrueSucc()
+	domT := b.Succs[ts].Dominates(use) && len(b.Succs[ts].Preds) == 1
+	domF := b.Succs[1-ts].Dominates(use) && len(b.Succs[1-ts].Preds) == 1
+	if domT == domF {
+		return 0, false
+	}
+	if domT {
+		switch op {
+		case token.GEQ, token.EQL:
+			return k, true
+		case token.GTR:
+			return k + 1, true
+		}
+		return 0, true
+	}
+	switch op {
+	case token.LSS, token.NEQ:
+		return k, true
+	case token.LEQ:
+		return k + 1, true
+	}
+	return 0, true
 }
 
 func isLenOfAny(x ssa.Value, same func(ssa.Value) bool) bool {
